@@ -13,9 +13,10 @@ def run(args):
     rnd = random.Random(C.seed())
     rep.cov["rule"] = ("the program families of C01 (operators, templates, nestings, seeded random programs) run on both "
                        "backends; each backend is compared with HmsSem's observation and the two with each other "
-                       "(same text, same outcome class, same message, corresponding fatal kind); non-trivial = "
-                       "distinct program texts")
-    rep.assumptions = ["shared fragment only: no spawn, no trigger",
+                       "(same text, same outcome class, same message, corresponding fatal kind); programs HmsSem does not decide, texts "
+                       "joined at run time where characters combine, failing builtins and the float edges of HmsFloat are compared between "
+                       "the backends as well; non-trivial = distinct program texts")
+    rep.assumptions = ["shared fragment only: no trigger; threads only where the functions are pure and results scalars (the interpreter has no threads)",
                        "floats outside the dyadic model are compared between the backends only"]
     progs = c01.programs(thorough, C.seed() + 1000, rnd)
     pool = C.Pool(C.build_worker())
